@@ -503,10 +503,169 @@ impl Engine for C20Engine {
     fn rule(&self) -> String {
         "cases are proptest-generated streams of (arena, operation) pairs over 2-4 arenas with independent constructors and MIN_ALIGN; every arena's sub-history is first run alone, then all are run together (interleaved in stream order on one thread, or one thread per arena behind a barrier) and each arena's normalised trace (outcome, chunk index, in-chunk offset, chunk_capacity, accounting, allocator traffic) must be identical; the 48 bytes of the shared static sentinel are compared before/after every step. non-trivial = an interleaving with >= 2 switches between arenas of which one involved a chunk-less arena, or a threaded case in which >= 2 threads allocated; distinct = distinct case bytes".into()
     }
+    fn sweep(&self, tier: Tier, idx: u32, _nworkers: u32) -> Option<SweepOut> {
+        if idx != 0 {
+            return None;
+        }
+        Some(tsan_part(tier))
+    }
+    fn replay_sweep(&self, item: &Value) -> Vec<String> {
+        // a TSan report depends on the schedule the OS happened to produce: re-run the saved cases a few times
+        let cases: Vec<String> = item["cases_hex"].as_array().map(|a| a.iter().filter_map(|x| x.as_str().map(|s| s.to_string())).collect()).unwrap_or_default();
+        let mut msgs = vec![];
+        for _ in 0..5 {
+            let (r, _, _) = run_tsan(&cases);
+            for rep in r {
+                if rep.class == TsanClass::Bumpalo {
+                    msgs.push(rep.summary);
+                }
+            }
+            if !msgs.is_empty() {
+                break;
+            }
+        }
+        msgs
+    }
     fn assumptions(&self) -> Vec<String> {
         vec![
             "placement by the harness allocator is a deterministic function of (case, arena, request index), so solo and joint runs are comparable bit for bit".into(),
             "data races themselves are decided by the ThreadSanitizer part (tsan/), not by this trace comparison".into(),
         ]
     }
+}
+
+
+// ---------------------------------------------------------------------------------------------
+// ThreadSanitizer part: generated thread programs run in /verif/tsan's instrumented binary
+
+#[derive(Clone, Copy, Debug, PartialEq, Eq)]
+pub enum TsanClass {
+    /// the shared static empty sentinel (known finding D10 if listed)
+    EmptyChunk,
+    /// any other race with bumpalo frames or in a chunk
+    Bumpalo,
+    /// a race elsewhere: harness problem
+    Other,
+}
+
+pub struct TsanReport {
+    pub class: TsanClass,
+    pub summary: String,
+}
+
+pub const TSAN_BIN: &str = "/verif/tsan/target/x86_64-unknown-linux-gnu/release/vtsan";
+
+fn tsan_strategy() -> BoxedStrategy<Vec<u8>> {
+    let code = proptest::sample::select(vec![0u8, 0, 1, 2, 3, 4, 4, 4, 4, 5, 6]);
+    let op = (0u8..4, code, any::<u8>()).prop_map(|(t, c, a)| [t, c, a]);
+    (any::<u8>(), 0u8..3, any::<u8>(), proptest::collection::vec(any::<u8>(), 4), proptest::collection::vec(op, 4..40))
+        .prop_map(|(k, m, h, caps, ops)| {
+            let kk = 2 + (k % 3) as usize;
+            let mut v = vec![k, m, h];
+            v.extend(caps.iter().take(kk));
+            for o in ops {
+                v.extend_from_slice(&o);
+            }
+            v
+        })
+        .boxed()
+}
+
+pub fn run_tsan(cases_hex: &[String]) -> (Vec<TsanReport>, usize, Option<String>) {
+    use std::io::Write;
+    let path = format!("{VERIF}/work/c20_tsan_cases_{}.txt", std::process::id());
+    let _ = std::fs::create_dir_all(format!("{VERIF}/work"));
+    if let Ok(mut f) = std::fs::File::create(&path) {
+        for c in cases_hex {
+            let _ = writeln!(f, "{c}");
+        }
+    }
+    let out = std::process::Command::new(TSAN_BIN).arg(&path).env("TSAN_OPTIONS", "halt_on_error=0 exitcode=0 report_thread_leaks=0").output();
+    let _ = std::fs::remove_file(&path);
+    let out = match out {
+        Ok(o) => o,
+        Err(e) => return (vec![], 0, Some(format!("cannot run the TSan binary {TSAN_BIN}: {e}"))),
+    };
+    let stdout = String::from_utf8_lossy(&out.stdout).to_string();
+    let ran = stdout.lines().find_map(|l| l.strip_prefix("TSAN-CASES ")).and_then(|r| r.split_whitespace().next()).and_then(|n| n.parse::<usize>().ok());
+    let Some(ran) = ran else {
+        return (vec![], 0, Some(format!("the TSan binary did not finish its cases (exit {:?}); stderr tail: {}", out.status.code(), String::from_utf8_lossy(&out.stderr).chars().rev().take(300).collect::<String>().chars().rev().collect::<String>())));
+    };
+    let stderr = String::from_utf8_lossy(&out.stderr).to_string();
+    let mut reports = vec![];
+    for block in stderr.split("==================") {
+        if !block.contains("WARNING: ThreadSanitizer") {
+            continue;
+        }
+        let loc = block.lines().find(|l| l.trim_start().starts_with("Location is")).unwrap_or("").trim().to_string();
+        let summary_line = block.lines().find(|l| l.starts_with("SUMMARY:")).unwrap_or("").to_string();
+        let class = if loc.contains("bumpalo::EMPTY_CHUNK") {
+            TsanClass::EmptyChunk
+        } else if block.contains("bumpalo::") || loc.contains("bumpalo") {
+            TsanClass::Bumpalo
+        } else {
+            TsanClass::Other
+        };
+        let first_frames: Vec<&str> = block.lines().filter(|l| l.trim_start().starts_with("#0") || l.trim_start().starts_with("#1")).take(4).map(|l| l.trim()).collect();
+        reports.push(TsanReport { class, summary: format!("{loc} | {summary_line} | {}", first_frames.join(" / ")) });
+    }
+    (reports, ran, None)
+}
+
+pub fn tsan_part(tier: Tier) -> SweepOut {
+    use proptest::strategy::ValueTree;
+    use proptest::test_runner::{Config, RngSeed, TestRunner};
+    let mut out = SweepOut::default();
+    let n = if tier == Tier::Thorough { 4000 } else { 300 };
+    let seed = seed_from_env();
+    let mut runner = TestRunner::new(Config { rng_seed: RngSeed::Fixed(seed ^ 0x7534), failure_persistence: None, ..Config::default() });
+    let strat = tsan_strategy();
+    let mut cases = vec![];
+    for _ in 0..n {
+        if let Ok(t) = strat.new_tree(&mut runner) {
+            cases.push(hex(&t.current()));
+        }
+    }
+    let (reports, ran, err) = run_tsan(&cases);
+    out.evaluations = ran as u64;
+    out.nontrivial = ran as u64; // every case starts >= 2 threads that each drive their own arena
+    let known = known_sigs_for("C20");
+    let mut n_empty = 0u64;
+    let mut n_other = 0u64;
+    for r in reports.iter() {
+        match r.class {
+            TsanClass::EmptyChunk => {
+                n_empty += 1;
+                if known.iter().any(|k| k == "tsan-race-on-static-empty-chunk") {
+                    if !out.known.iter().any(|k| k == "tsan-race-on-static-empty-chunk") {
+                        out.known.push("tsan-race-on-static-empty-chunk".into());
+                    }
+                } else if out.viol.len() < 2 {
+                    out.viol.push((format!("ThreadSanitizer: data race between threads that each use their own arena: {}", r.summary), json!({"cases_hex": cases.iter().take(60).collect::<Vec<_>>()})));
+                }
+            }
+            TsanClass::Bumpalo => {
+                if out.viol.len() < 2 {
+                    out.viol.push((format!("ThreadSanitizer: data race between threads that each use their own arena: {}", r.summary), json!({"cases_hex": cases.iter().take(60).collect::<Vec<_>>()})));
+                }
+            }
+            TsanClass::Other => n_other += 1,
+        }
+    }
+    out.extra.insert("tsan_thread_programs".into(), json!(ran));
+    out.extra.insert("tsan_reports_on_static_empty_chunk".into(), json!(n_empty));
+    out.extra.insert("tsan_reports_total".into(), json!(reports.len()));
+    let mut eng = vec![];
+    if let Some(e) = err {
+        eng.push(e);
+    }
+    if n_other > 0 {
+        eng.push(format!("{n_other} TSan reports without any bumpalo frame (harness problem)"));
+    }
+    out.extra.insert("engine_errors".into(), json!(eng.len()));
+    if !eng.is_empty() {
+        out.extra.insert("engine_error_list".into(), json!(eng));
+    }
+    out.samples.push(json!({"tsan_case_hex": cases.first(), "meaning": "byte0: 2-4 threads, byte1: MIN_ALIGN 1/8/16, byte2 bit0: hand the arena over to the next thread at the end, then per-thread capacity bytes, then (thread, op, arg) triples: alloc_layout / alloc / reset / zero-sized request / drop+recreate / accounting"}));
+    out
 }
